@@ -132,7 +132,7 @@ theorem thiele_preserves_formula (k t : Mol) (h : checkThiele k t = true) : brut
     map_eq_of_all2 _ _ (fun x y hxy => by
       unfold aromAtomOk at hxy
       simp only [Bool.and_eq_true, beq_iff_eq] at hxy
-      exact hxy.2) h.1
+      exact hxy.2) h.1.1
   unfold brutto Valence.implicitTotal
   rw [symbolCounter_congr [] (elements_of_skeleton hs.skeleton), hh]
 
@@ -191,6 +191,18 @@ theorem thiele_model_false_unchanged (m : Mol) (sssr : List (List Nat)) (t : Mol
   thieleNoFix_false_unchanged m sssr t h
 
 example : (thieleNoFix pyrroleKek [[1, 2, 3, 4, 5]]).map (·.1) = some true := by decide +kernel
+
+/-- the single-ring decision only ever aromatises a benzene-like or pyrrole-like candidate without exocyclic double bond -/
+theorem mono_aromatic_is_candidate (m : Mol) (ring : List Nat) (h : monoAromatic m ring = true) :
+    candidate (ringKind m ring) = true ∧ ringKind m ring ≠ .freak ∧ ∀ n ∈ ring, exoDouble m ring n = false := by
+  unfold monoAromatic at h
+  simp only [Bool.and_eq_true, Bool.not_eq_true', List.any_eq_false] at h
+  obtain ⟨hk, hex⟩ := h
+  refine ⟨?_, ?_, fun n hn => by simpa using hex n hn⟩
+  · cases hr : ringKind m ring <;> simp [hr, candidate] at hk ⊢
+  · intro hf
+    rw [hf] at hk
+    cases hk
 
 example : ringKind pyrroleKek [1, 2, 3, 4, 5] = .pyrrole 1 := by decide
 example : monoAromatic pyrroleKek [1, 2, 3, 4, 5] = true := by decide
@@ -316,6 +328,24 @@ theorem fix_rings_conserves_charge (m : Mol) (maps : List (List (List (Nat × Na
       obtain ⟨a1, _⟩ := fixLoop_charge rules maps ⟨m, [], true, []⟩ s1 aromfix_charge_conserving hf hids hl
       simp only
       rw [fixHydrogens_charge _ _ _ hh, a1]
+
+/-- … and never adds, removes or renumbers an atom -/
+theorem fix_rings_preserves_atom_numbers (m : Mol) (maps : List (List (List (Nat × Nat)))) (s : FixState)
+    (hids : m.ids.Nodup) (hf : fixFaithful m maps = true) (h : fixRings fixRules m maps = some s) :
+    s.mol.ids = m.ids := by
+  unfold fixRings at h
+  cases hl : fixLoop fixRules maps ⟨m, [], true, []⟩ with
+  | none => simp [hl] at h
+  | some s1 =>
+    simp only [hl] at h
+    cases hh : fixHydrogens s1.localized s1.mol with
+    | none => simp [hh] at h
+    | some m' =>
+      simp only [hh, Option.map_some, Option.some.injEq] at h
+      subst h
+      obtain ⟨_, a2⟩ := fixLoop_charge rules maps ⟨m, [], true, []⟩ s1 aromfix_charge_conserving hf hids hl
+      simp only
+      rw [fixHydrogens_ids _ _ _ hh, a2]
 
 /-- the atomic-number constants of kekule.py and thiele.py are the elements whose numbers the model's literals use -/
 theorem constants_are_elements :
